@@ -164,11 +164,15 @@ pub fn run(ctx: &Ctx, rep: &mut Report) {
 
     // let-abstraction: C[e'] vs t = e'; C[t]
     let n_let = ctx.budget(300, 4000);
-    for _ in 0..n_let {
+    for li in 0..n_let {
         let ns = 2 + rng.below(3);
         let (prefix, sc) = evgen::gen_program(&mut rng, ns, 1);
         let ty = *rng.pick(&[Ty::Num, Ty::Num, Ty::Str, Ty::ListNum, Ty::Bool, Ty::Rec]);
-        let sub = evgen::gexpr(&mut rng, ty, &sc, 2);
+        let mut sub = evgen::gexpr(&mut rng, ty, &sc, 2);
+        // containers whose equality is not reflexive (NaN inside), -0, nested empties
+        if li % 6 == 5 {
+            sub = rng.pick(&["{a: 0/0}", "[0/0]", "[1, [0/0, 2]]", "{a: {b: 0/0}, c: 1}", "[0 * -1]", "{k: []}", "[[], {}]", "0/0", "[\"a\", 0/0]"]).to_string();
+        }
         let mut sc2: Scope = sc.clone();
         sc2.vars.push(("hole__".into(), ty));
         // make sure the hole is used: generate until the context mentions it
@@ -179,6 +183,12 @@ pub fn run(ctx: &Ctx, rep: &mut Report) {
             if ctxt.contains("hole__") {
                 break;
             }
+        }
+        // every third context uses the name more than once (the same value reached twice)
+        if li % 3 == 2 {
+            ctxt = rng.pick(&["(hole__ == hole__)", "(hole__ .== hole__)", "(hole__ != hole__)", "includes([hole__], hole__)", "unique([hole__, hole__])", "[hole__, hole__]",
+                "(hole__ .<= hole__)", "{a: hole__, b: hole__}", "index_of([1, hole__], hole__)", "ugte(hole__, hole__)", "len(unique([hole__, hole__, 1]))", "[hole__] == [hole__]",
+                "sort([hole__, hole__])", "({k: hole__} .== {k: hole__})", "count_by([hole__, hole__], x => typeof(x))"]).to_string();
         }
         if !ctxt.contains("hole__") {
             continue;
@@ -211,6 +221,22 @@ pub fn run(ctx: &Ctx, rep: &mut Report) {
         }
     }
 
+    // `random` is a function of its seed for every seed (the documented exceptions are time_now and print)
+    for seed in ["0", "1", "-1", "2.5", "1e30", "-1e30", "0/0", "inf", "-inf", "0 * -1", "9007199254740993", "1e-320"] {
+        let src = format!("a = random({})\nb = random({})\n[a == b, a]", seed, seed);
+        let st = match statements(&src) { Ok(s) => s, Err(_) => continue };
+        let r1 = run_real(&st, None, &src);
+        let r2 = run_real(&st, None, &src);
+        rep.case(&src, true);
+        if r1.outcomes != r2.outcomes {
+            rep.finding("oracle", "nondeterministic", &src, &format!("first={} second={}", short(&r1.outcomes.join(" ")), short(&r2.outcomes.join(" "))), "c02.nondeterministic");
+        } else if let Some(l) = r1.outcomes.last() {
+            if l.starts_with("(ok (list (bool f)") && !l.contains("7ff8") {
+                rep.finding("oracle", "nondeterministic", &src, &format!("two calls with the same seed differ: {}", short(l)), "c02.nondeterministic");
+            }
+        }
+        cli_progs.push(format!("output r = random({})", seed));
+    }
     // two processes (different hash seeds): same stdout and exit status
     for (k, src) in cli_progs.iter().enumerate() {
         let run = |tag: &str| -> (Option<i32>, String) {
